@@ -168,10 +168,17 @@ func TestC15(t *testing.T) {
 	})
 	r.Sample(map[string]any{"conn": "NoiseGrpcConn", "writes": []int{3, 0, 2}, "buffers": []int{1, 4}})
 	r.Sample(map[string]any{"conn": "NoiseConn", "writes": []int{131071}, "buffers": []int{7}})
+	// writes of more than one record over a transport that times out part
+	// of the way (the byte count reported decides where the caller resumes)
+	mc, mn := multiRecordWrites(r, r.Thorough())
+	evals += mc
+	nontrivial += mn
+	r.Set("multi_record_write_scripts", mc)
+
 	r.Set("evaluations", evals)
 	r.Set("distinct_nontrivial", nontrivial)
 	r.Set("outcome_classes", classes)
-	r.Set("rule", "for NoiseGrpcConn (through ClientHandshake/ServerHandshake), NoiseConn and connKit: every write-size sequence of length <= 3 over {0,1,2,3} x every read-buffer-size sequence of length <= 2 (quick) / 3 (thorough) over {1,2,3,4} (cycled), both directions alternating; boundary writes {0,1,32767,32768,32769,65535,65536(,65537,131071)} x buffers {1,2,7,32768,65536,70000}. Oracle: 0<=n<=len(buf), nothing written beyond the buffer, concatenation read == concatenation of accepted writes, oversize writes rejected or chunked. distinct_nontrivial = passing cases in which some buffer was smaller than some record")
+	r.Set("rule", "for NoiseGrpcConn (through ClientHandshake/ServerHandshake), NoiseConn and connKit: every write-size sequence of length <= 3 over {0,1,2,3} x every read-buffer-size sequence of length <= 2 (quick) / 3 (thorough) over {1,2,3,4} (cycled), both directions alternating; boundary writes {0,1,32767,32768,32769,65535,65536(,65537,131071)} x buffers {1,2,7,32768,65536,70000}. Oracle: 0<=n<=len(buf), nothing written beyond the buffer, concatenation read == concatenation of accepted writes, oversize writes rejected or chunked; NoiseConn.Write of more than one record over a transport that times out at one or two of ten offsets per record, the caller flushing and resuming at the reported offset: the peer reads exactly what was written. distinct_nontrivial = passing cases in which some buffer was smaller than some record")
 	r.Set("exhaustive", true)
 	exitCode = r.Finish()
 }
